@@ -481,6 +481,30 @@ def overflow_dispatch(ck, rule_clamp, rule_wrapsel, roles):
                          "exchanged or wrong bounds: out-of-range inputs are stored as the opposite bound")
                 if any(is_int_cast(c) for c in peel(x)[1]):
                     ck.bad(rule_clamp, h, "no narrowing cast precedes the clamp", "clamp argument %s" % src(x)[:80], pf.ret_stmt)
+                # a helper vectorised without otypes takes its output dtype from the first element: arrays of Python ints must not reach it
+                if isinstance(e, ast.Call):
+                    cq = prog.resolve_call(h, e)
+                    cf = prog.funcs.get(cq) if cq else None
+                    if cf is not None and any("vectorize" in d and "otypes" not in d for d in cf.decorators):
+                        from ..common import path_literals
+                        excluded = False
+                        for t, pol in path_literals(pf.guards):
+                            if isinstance(t, ast.Compare) and len(t.ops) == 1 and isinstance(t.ops[0], ast.Eq) and isinstance(t.left, ast.Attribute) and t.left.attr == "dtype" \
+                                    and dotted(t.comparators[0]) in ("object", "np.object_") and not pol:
+                                excluded = True
+                            if isinstance(t, ast.Call) and dotted(t.func) == "isinstance" and len(t.args) == 2 and dotted(t.args[1]) == "np.ndarray" and not pol:
+                                excluded = True
+                            if isinstance(t, ast.BoolOp) and isinstance(t.op, ast.And) and not pol:
+                                # not (is an ndarray and dtype == object): every conjunct is part of "is an object array"
+                                def _objpart(v):
+                                    return (isinstance(v, ast.Compare) and len(v.ops) == 1 and isinstance(v.ops[0], ast.Eq) and isinstance(v.left, ast.Attribute) and v.left.attr == "dtype"
+                                            and dotted(v.comparators[0]) in ("object", "np.object_")) or \
+                                           (isinstance(v, ast.Call) and dotted(v.func) == "isinstance" and len(v.args) == 2 and dotted(v.args[1]) in ("np.ndarray",))
+                                if all(_objpart(v) for v in t.values) and any(isinstance(v, ast.Compare) for v in t.values):
+                                    excluded = True
+                        ck.check(excluded, rule_clamp, h, "arrays of Python ints (n_word >= 64) are clamped by np.clip, not by the helper vectorised without otypes",
+                                 "%s reached without excluding object arrays" % cf.qualname, pf.ret_stmt,
+                                 "np.vectorize infers the output type from the first element: a later element beyond 64 bits raises OverflowError")
             handled[key] = True
         elif key == "wrap":
             okw = isinstance(e, ast.Call) and wrapf is not None and prog.resolve_call(h, e) == wrapf.qualname
